@@ -693,16 +693,25 @@ func (r *c42Run) commit(txs []*types.Transaction, nBoundary int) store.ExecuteRe
 			errCh <- r.m.Store.SubmitBlock(blk, nil, res)
 		}()
 		world.Quiesce()
-		select {
-		case <-reached:
-			c.Probe("pre_inside_submit")
-			r.whileBlocked = resume
-			r.preExec(true)
-			r.whileBlocked = nil
-		default:
-		}
+		// a failing check must not unwind the run while the commit is still stopped
+		var verdict interface{}
+		func() {
+			defer func() { verdict = recover() }()
+			select {
+			case <-reached:
+				c.Probe("pre_inside_submit")
+				r.whileBlocked = resume
+				r.preExec(true)
+				r.whileBlocked = nil
+			default:
+			}
+		}()
 		resume()
-		if err := <-errCh; err != nil {
+		err := <-errCh
+		if verdict != nil {
+			panic(verdict)
+		}
+		if err != nil {
 			// the same block is accepted by the twin below: only the pre-execution inside the commit differs
 			c.Fail("commit-fails-after-preexec-inside", "submit", "block %d: SubmitBlock that was stalled at a disk call while a pre-execution ran ends with: %v", h, err)
 		}
